@@ -236,5 +236,76 @@ for v in (2.5, -2.5, 0.9, -0.9, 3.0, 1e-9):
     n += 1; bad += 0 if list(a) == [int(v), 20, int(v)] else 1
 record("a float stored into an integer array is truncated toward zero", n, bad)
 
+# 15. several 1-D integer index arrays are PAIRED (pointwise), reading and writing; a cell addressed twice keeps the last
+#     value; the paired block is one dimension, placed where the first advanced index stands when the advanced indices
+#     (integers included) are adjacent and first otherwise
+bad = n = 0
+rng = np.random.RandomState(5)
+for trial in range(300):
+    shape = tuple(rng.randint(1, 4, size=3))
+    m = rng.randint(0, 4)
+    I = [rng.randint(0, shape[d], size=m) for d in range(3)]
+    base = rng.rand(*shape)
+    for key_kind in ("IJ:", "I:J", ":IJ", "IJK", "Ij:", "i:J"):
+        key, lay = [], []
+        for d, ch in enumerate(key_kind):
+            if ch == ":":
+                key.append(slice(None))
+            elif ch.isupper():
+                key.append(I[d])
+            else:
+                key.append(int(rng.randint(0, shape[d])))
+        key = tuple(key)
+        n_arr = sum(1 for ch in key_kind if ch.isupper())
+        adv = [d for d, ch in enumerate(key_kind) if ch != ":"]
+        sl = [d for d, ch in enumerate(key_kind) if ch == ":"]
+        separated = any(key_kind[d] == ":" for d in range(min(adv), max(adv) + 1))
+        if n_arr >= 2 or (n_arr == 1):
+            layout = (["pair"] + sl) if separated else ([d for d in sl if d < adv[0]] + ["pair"] + [d for d in sl if d > adv[0]])
+        selshape = tuple(m if e == "pair" else shape[e] for e in layout)
+        # read
+        got = base[key]
+        exp = np.empty(selshape)
+        for sel in np.ndindex(*selshape):
+            src = [None] * 3
+            k = sel[layout.index("pair")]
+            for d, ch in enumerate(key_kind):
+                if ch == ":":
+                    src[d] = sel[layout.index(d)]
+                elif ch.isupper():
+                    src[d] = I[d][k]
+                else:
+                    src[d] = key[d]
+            exp[sel] = base[tuple(src)]
+        n += 1; bad += 0 if got.shape == exp.shape and np.array_equal(got, exp) else 1
+        # write (array value of the selection's shape; last write wins)
+        v = rng.rand(*selshape)
+        a = base.copy(); a[key] = v
+        e = base.copy()
+        for sel in np.ndindex(*selshape):
+            src = [None] * 3
+            k = sel[layout.index("pair")]
+            for d, ch in enumerate(key_kind):
+                if ch == ":":
+                    src[d] = sel[layout.index(d)]
+                elif ch.isupper():
+                    src[d] = I[d][k]
+                else:
+                    src[d] = key[d]
+            e[tuple(src)] = v[sel]
+        # np.ndindex runs the paired coordinate in increasing k for a fixed rest only when "pair" is first; compare per cell
+        # with the LAST k instead
+        ok = True
+        for cell in np.ndindex(*shape):
+            ks = [k for k in range(m) if all((key_kind[d] == ":") or (key_kind[d].isupper() and I[d][k] == cell[d]) or
+                                             (key_kind[d].islower() and key[d] == cell[d]) for d in range(3))]
+            if not ks:
+                ok = ok and a[cell] == base[cell]
+            else:
+                sel = tuple(ks[-1] if e_ == "pair" else cell[e_] for e_ in layout)
+                ok = ok and a[cell] == v[sel]
+        n += 1; bad += 0 if ok else 1
+record("1-D integer index arrays are paired pointwise (read, write, last write wins, placement of the paired dimension)", n, bad)
+
 print(json.dumps({"numpy": np.__version__, "results": results}, indent=1))
 sys.exit(3 if any(r["mismatches"] for r in results) else 0)
